@@ -979,7 +979,16 @@ func genC01(p *Pkg) (map[string]string, error) {
 	if err != nil {
 		return nil, err
 	}
-	return map[string]string{"C01_StackEffects.lean": b.String(), "C01_PanicKinds.lean": pk}, nil
+	sc, err := genC01Scope(p)
+	if err != nil {
+		return nil, err
+	}
+	stm, err := genC01Stmt(p)
+	if err != nil {
+		return nil, err
+	}
+	return map[string]string{"C01_StackEffects.lean": b.String(), "C01_PanicKinds.lean": pk, "C01_Scope.lean": sc,
+		"C01_Stmt.lean": stm}, nil
 }
 
 // ---- panic payload classifier case lists ---------------------------------------------------------------
@@ -1205,6 +1214,342 @@ func genC01PanicKinds(p *Pkg) (string, error) {
 	})
 	sort.Strings(cleared)
 	fmt.Fprintf(&b, "def enterFinallyClears : List String := %s\n", c01leanStrList(cleared))
+	b.WriteString("\nend GojaModel.C01.Gen\n")
+	return b.String(), nil
+}
+
+// ---- scope analysis: who owns a stash (decision structure of scope.hasStash and of the run-time side) ----------
+
+var c01scopeAtoms = map[string]string{
+	"s.dynamic":            "dynamic",
+	"s.dynLookup":          "dynLookup",
+	"s.funcType!=funcNone": "isFuncType",
+	"s.outer==nil":         "outerNil",
+	"s.variable":           "isVarScope",
+	"len(s.bindings)>0":    "hasBindings",
+	"s.needStash":          "needStash",
+	"s.argsInStash":        "argsInStash",
+	"b.inStash":            "anyInStash",
+	"true":                 "true",
+	"false":                "false",
+}
+
+func c01boolExpr(e ast.Expr) (string, error) {
+	switch x := e.(type) {
+	case *ast.ParenExpr:
+		return c01boolExpr(x.X)
+	case *ast.BinaryExpr:
+		if x.Op == token.LOR || x.Op == token.LAND {
+			l, err := c01boolExpr(x.X)
+			if err != nil {
+				return "", err
+			}
+			r, err := c01boolExpr(x.Y)
+			if err != nil {
+				return "", err
+			}
+			op := "||"
+			if x.Op == token.LAND {
+				op = "&&"
+			}
+			return "(" + l + " " + op + " " + r + ")", nil
+		}
+	case *ast.UnaryExpr:
+		if x.Op == token.NOT {
+			in, err := c01boolExpr(x.X)
+			if err != nil {
+				return "", err
+			}
+			return "(!" + in + ")", nil
+		}
+	}
+	if a, ok := c01scopeAtoms[c01exprStr(e)]; ok {
+		return a, nil
+	}
+	return "", fmt.Errorf("hasStash: condition %s is outside the translatable subset", c01exprStr(e))
+}
+
+// c01boolStmts translates `if c { … }` / `return e` / `for _, b := range s.bindings { if b.inStash { return true } }`
+// sequences into one Lean Bool expression; k is the value when control falls off the end of the list.
+func c01boolStmts(list []ast.Stmt, k string) (string, error) {
+	if len(list) == 0 {
+		return k, nil
+	}
+	rest := func() (string, error) { return c01boolStmts(list[1:], k) }
+	switch x := list[0].(type) {
+	case *ast.ReturnStmt:
+		if len(x.Results) != 1 {
+			return "", fmt.Errorf("hasStash: return without a value")
+		}
+		return c01boolExpr(x.Results[0])
+	case *ast.IfStmt:
+		if x.Init != nil || x.Else != nil {
+			return "", fmt.Errorf("hasStash: if with init/else")
+		}
+		c, err := c01boolExpr(x.Cond)
+		if err != nil {
+			return "", err
+		}
+		r, err := rest()
+		if err != nil {
+			return "", err
+		}
+		th, err := c01boolStmts(x.Body.List, r)
+		if err != nil {
+			return "", err
+		}
+		return "(if " + c + " then " + th + " else " + r + ")", nil
+	case *ast.RangeStmt:
+		if c01exprStr(x.X) != "s.bindings" {
+			return "", fmt.Errorf("hasStash: range over %s", c01exprStr(x.X))
+		}
+		r, err := rest()
+		if err != nil {
+			return "", err
+		}
+		// the body must be exactly: if b.inStash { return true }
+		if len(x.Body.List) == 1 {
+			if is, ok := x.Body.List[0].(*ast.IfStmt); ok && c01exprStr(is.Cond) == "b.inStash" && len(is.Body.List) == 1 {
+				if rs, ok := is.Body.List[0].(*ast.ReturnStmt); ok && len(rs.Results) == 1 && c01exprStr(rs.Results[0]) == "true" {
+					return "(if anyInStash then true else " + r + ")", nil
+				}
+			}
+		}
+		return "", fmt.Errorf("hasStash: unexpected loop body")
+	}
+	return "", fmt.Errorf("hasStash: statement %T is outside the translatable subset", list[0])
+}
+
+func c01firstIfCond(fd *ast.FuncDecl, contains string) string {
+	res := ""
+	ast.Inspect(fd.Body, func(n ast.Node) bool {
+		if is, ok := n.(*ast.IfStmt); ok && res == "" {
+			if c := c01exprStr(is.Cond); strings.Contains(c, contains) {
+				res = c
+			}
+		}
+		return res == ""
+	})
+	return res
+}
+
+func genC01Scope(p *Pkg) (string, error) {
+	var b strings.Builder
+	b.WriteString("-- GENERATED by extract/c01.go from compiler.go / compiler_stmt.go / compiler_expr.go / vm.go — do not edit\nnamespace GojaModel.C01.Gen\n\n")
+	hs := p.FuncDecl("scope", "hasStash")
+	if hs == nil {
+		return "", fmt.Errorf("scope.hasStash not found")
+	}
+	body, err := c01boolStmts(hs.Body.List, "false")
+	if err != nil {
+		return "", err
+	}
+	b.WriteString("/-- scope.hasStash, translated statement by statement -/\n")
+	b.WriteString("def hasStashGen (dynamic dynLookup isFuncType outerNil isVarScope hasBindings needStash argsInStash anyInStash : Bool) : Bool :=\n  " + body + "\n\n")
+	// the level loops of finaliseVarAlloc must use hasStash
+	fva := p.FuncDecl("scope", "finaliseVarAlloc")
+	if fva == nil {
+		return "", fmt.Errorf("scope.finaliseVarAlloc not found")
+	}
+	var levelConds []string
+	ast.Inspect(fva.Body, func(n ast.Node) bool {
+		if fs, ok := n.(*ast.ForStmt); ok && fs.Init != nil && strings.HasPrefix(c01exprStr(fs.Cond), "sc!=nil") {
+			for _, st := range fs.Body.List {
+				if is, ok := st.(*ast.IfStmt); ok {
+					levelConds = append(levelConds, c01exprStr(is.Cond))
+				}
+			}
+		}
+		return true
+	})
+	fmt.Fprintf(&b, "def levelLoopConds : List String := %s\n", c01leanStrList(levelConds))
+	// run-time side
+	eb := p.FuncDecl("enterBlock", "exec")
+	efb := p.FuncDecl("enterFuncBody", "exec")
+	ueb := p.FuncDecl("compiler", "updateEnterBlock")
+	cfl := p.FuncDecl("compiledFunctionLiteral", "compile")
+	cfs := p.FuncDecl("compiledClassLiteral", "compileFieldsAndStaticBlocks")
+	if eb == nil || efb == nil || ueb == nil || cfl == nil || cfs == nil {
+		return "", fmt.Errorf("enterBlock.exec / enterFuncBody.exec / updateEnterBlock / compile / compileFieldsAndStaticBlocks not found")
+	}
+	fmt.Fprintf(&b, "def enterBlockStashCond : String := %s\n", LeanString(c01firstIfCond(eb, "stashSize")))
+	fmt.Fprintf(&b, "def enterFuncBodyStashCond : String := %s\n", LeanString(c01firstIfCond(efb, "stashSize")))
+	fmt.Fprintf(&b, "def funcEnterStashCond : String := %s\n", LeanString(c01firstIfCond(cfl, "stashSize>0")))
+	fmt.Fprintf(&b, "def clsInitEnterStashCond : String := %s\n", LeanString(c01firstIfCond(cfs, "stashSize>0")))
+	// updateEnterBlock: `if scope.dynLookup { stashSize = len(scope.bindings) … } else { for … if b.inStash { stashSize++ } … }`
+	shape := ""
+	for _, st := range ueb.Body.List {
+		if is, ok := st.(*ast.IfStmt); ok && c01exprStr(is.Cond) == "scope.dynLookup" {
+			for _, t := range is.Body.List {
+				if as, ok := t.(*ast.AssignStmt); ok && len(as.Lhs) == 1 && c01exprStr(as.Lhs[0]) == "stashSize" {
+					shape = "dynLookup:" + c01exprStr(as.Rhs[0])
+				}
+			}
+			if el, ok := is.Else.(*ast.BlockStmt); ok {
+				ast.Inspect(el, func(n ast.Node) bool {
+					if i2, ok := n.(*ast.IfStmt); ok && c01exprStr(i2.Cond) == "b.inStash" {
+						for _, t := range i2.Body.List {
+							if id, ok := t.(*ast.IncDecStmt); ok && c01exprStr(id.X) == "stashSize" {
+								shape += ";else:count(b.inStash)"
+							}
+						}
+					}
+					return true
+				})
+			}
+		}
+	}
+	fmt.Fprintf(&b, "def updateEnterBlockShape : String := %s\n", LeanString(shape))
+	b.WriteString("\nend GojaModel.C01.Gen\n")
+	return b.String(), nil
+}
+
+// ---- statement compilation: decision + emission skeletons ------------------------------------------------
+//
+// For each statement-compiling method the model transcribes, the skeleton keeps the control structure (conditions of
+// if statements, loops, gotos, returns) and, in source order, the calls that emit code or compile a sub-statement;
+// everything else (bookkeeping assignments, block push/pop, source maps) is dropped.
+
+var c01skelCalls = map[string]bool{"emit": true, "emitThrow": true, "emitGetter": true, "emitExpr": true, "emitConst": true,
+	"emitNamedOrConst": true, "emitNamed": true, "emitVarRef": true, "emitInitP": true, "compileStatement": true,
+	"compileStatementDummy": true, "compileIfBody": true, "compileIfBodyDummy": true, "compileStatements": true,
+	"compileStatementsNeedResult": true, "enterDummyMode": true, "compileVarBinding": true, "compileForHeadLexDecl": true,
+	"compileFunction": true, "throwSyntaxError": true, "leave": true}
+
+// decision variables whose assignments belong to the skeleton
+var c01skelVars = map[string]bool{"lastProducingIdx": true, "needResult": true, "breakingBlock": true, "testTrue": true, "testConst": true}
+
+func c01skelCallsIn(n ast.Node) string {
+	out := ""
+	ast.Inspect(n, func(m ast.Node) bool {
+		if _, ok := m.(*ast.FuncLit); ok {
+			return false
+		}
+		if ce, ok := m.(*ast.CallExpr); ok {
+			name := ""
+			switch f := ce.Fun.(type) {
+			case *ast.SelectorExpr:
+				name = f.Sel.Name
+			case *ast.Ident:
+				name = f.Name
+			}
+			if c01skelCalls[name] {
+				out += c01exprStr(ce) + ";"
+				return false
+			}
+		}
+		return true
+	})
+	return out
+}
+
+func c01skel(list []ast.Stmt) string {
+	out := ""
+	for _, st := range list {
+		switch x := st.(type) {
+		case *ast.IfStmt:
+			body := c01skel(x.Body.List)
+			els := ""
+			if x.Else != nil {
+				els = c01skel([]ast.Stmt{x.Else})
+			}
+			if body != "" || els != "" {
+				out += "if(" + c01exprStr(x.Cond) + "){" + body + "}"
+				if els != "" {
+					out += "else{" + els + "}"
+				}
+			}
+		case *ast.BlockStmt:
+			out += c01skel(x.List)
+		case *ast.ForStmt:
+			if b := c01skel(x.Body.List); b != "" {
+				out += "for{" + b + "}"
+			}
+		case *ast.RangeStmt:
+			if b := c01skel(x.Body.List); b != "" {
+				out += "range(" + c01exprStr(x.X) + "){" + b + "}"
+			}
+		case *ast.BranchStmt:
+			if x.Label != nil {
+				out += x.Tok.String() + " " + x.Label.Name + ";"
+			} else {
+				out += x.Tok.String() + ";"
+			}
+		case *ast.ReturnStmt:
+			out += "return;"
+		case *ast.LabeledStmt:
+			out += x.Label.Name + ":" + c01skel([]ast.Stmt{x.Stmt})
+		case *ast.SwitchStmt:
+			inner := ""
+			for _, c := range x.Body.List {
+				cc := c.(*ast.CaseClause)
+				if b := c01skel(cc.Body); b != "" {
+					ls := []string{}
+					for _, e := range cc.List {
+						ls = append(ls, c01exprStr(e))
+					}
+					inner += "case(" + strings.Join(ls, ",") + "){" + b + "}"
+				}
+			}
+			if inner != "" {
+				out += "switch{" + inner + "}"
+			}
+		case *ast.TypeSwitchStmt:
+			inner := ""
+			for _, c := range x.Body.List {
+				cc := c.(*ast.CaseClause)
+				if b := c01skel(cc.Body); b != "" {
+					ls := []string{}
+					for _, e := range cc.List {
+						ls = append(ls, c01exprStr(e))
+					}
+					inner += "case(" + strings.Join(ls, ",") + "){" + b + "}"
+				}
+			}
+			if inner != "" {
+				out += "typeswitch{" + inner + "}"
+			}
+		case *ast.AssignStmt:
+			// patching a placeholder: c.p.code[j] = jneP(...)
+			if len(x.Lhs) == 1 && strings.HasPrefix(c01exprStr(x.Lhs[0]), "c.p.code[") && len(x.Rhs) == 1 {
+				out += "patch " + c01exprStr(x.Rhs[0]) + ";"
+			} else if id, ok := x.Lhs[0].(*ast.Ident); ok && len(x.Lhs) == 1 && len(x.Rhs) == 1 && c01skelVars[id.Name] {
+				out += "set " + id.Name + "=" + c01exprStr(x.Rhs[0]) + ";"
+			} else {
+				out += c01skelCallsIn(x)
+			}
+		case *ast.DeferStmt:
+			// deferred bookkeeping (leaving dummy mode) does not emit
+		default:
+			out += c01skelCallsIn(st)
+		}
+	}
+	return out
+}
+
+func genC01Stmt(p *Pkg) (string, error) {
+	var b strings.Builder
+	b.WriteString("-- GENERATED by extract/c01.go from compiler_stmt.go — do not edit\nnamespace GojaModel.C01.Gen\n\n")
+	names := []string{"compileExpressionStatement", "compileEmptyStatement", "compileIfStatement", "compileIfBody",
+		"compileLabeledWhileStatement", "compileLabeledDoWhileStatement", "compileLabeledForStatement", "compileReturnStatement",
+		"compileThrowStatement", "emitVarAssign", "compileStatements", "compileStatementsNeedResult", "scanStatements"}
+	for _, n := range names {
+		fd := p.FuncDecl("compiler", n)
+		if fd == nil {
+			return "", fmt.Errorf("compiler.%s not found", n)
+		}
+		fmt.Fprintf(&b, "def skel_%s : String := %s\n", n, LeanString(c01skel(fd.Body.List)))
+	}
+	ier := p.FuncDecl("compiler", "isEmptyResult")
+	if ier == nil {
+		return "", fmt.Errorf("compiler.isEmptyResult not found")
+	}
+	cases, hasDefault, err := c01typeSwitchCases(ier)
+	if err != nil {
+		return "", err
+	}
+	fmt.Fprintf(&b, "def isEmptyResultCases : List String := %s\ndef isEmptyResultHasDefault : Bool := %v\n",
+		c01leanStrList(cases), hasDefault)
 	b.WriteString("\nend GojaModel.C01.Gen\n")
 	return b.String(), nil
 }
